@@ -250,6 +250,16 @@ def check_metrics(pred, obs, chains, col, record=True):
             separating = True
         if record:
             col.outcome("metrics", round(float(got_mse), 9), round(float(got_var), 9), round(float(got), 9))
+    # the same object asked again, in another order (a value cached on the object must not change any answer), and the
+    # arrays it was built from must be untouched
+    again = (me.mean_predictions, me.inter_chain_mse_variance(), me.mse_variance(), me.mse(), me.inter_chain_mse_variance())
+    col.evaluations += 5
+    first = (got_mean, got, got_var, got_mse, got)
+    for name, a_, b_ in zip(("mean_predictions", "inter_chain_mse_variance", "mse_variance", "mse", "inter_chain_mse_variance"), first, again):
+        if not np.array_equal(np.asarray(a_, dtype=float), np.asarray(b_, dtype=float), equal_nan=True):
+            col.violation(f"C20|{name}|changes-when-asked-again", f"{name} answered {np.asarray(a_).tolist()} first and {np.asarray(b_).tolist()} when the same ModelEvaluation was asked again; pred={pred} obs={obs}", dict(base_case, chain=chains[-1]))
+    if not (np.array_equal(P, np.array(pred, dtype=float).reshape(E, T)) and np.array_equal(O, np.array(obs, dtype=float), equal_nan=True)):
+        col.violation("C20|metrics|inputs-mutated", f"computing the metrics changed the prediction / observation arrays; pred={pred} obs={obs}", case0)
     if record and separating:
         col.nontriv("metrics", pred, obs)
 
